@@ -41,7 +41,25 @@ def run(ctx):
     res = ctx.resolver
     tw = idx.func("gwf.plugins.touch:touch_workflow")
     from ..inline import inlined
-    visit = next((f for f in tw.nested.values() if any(isinstance(c.func, ast.Name) and c.func.id == f.name for c in _calls(f.node))), None) or next(iter(tw.nested.values()), None)
+    # names under which the visitor is called: its own name, or `name = lru_cache(maxsize=None)(visitor)` wrappers
+    wrappers = {}  # wrapper name -> (wrapped function name, 'unbounded'|'bounded')
+    for n in tw.node.body:
+        if isinstance(n, ast.Assign) and isinstance(n.targets[0], ast.Name) and isinstance(n.value, ast.Call) and n.value.args \
+                and isinstance(n.value.args[0], ast.Name) and n.value.args[0].id in tw.nested:
+            deco = n.value.func
+            canon = idx.canon(deco.func if isinstance(deco, ast.Call) else deco, tw.module) or ""
+            if canon in ("functools.lru_cache", "functools.cache"):
+                unb = canon == "functools.cache" or (isinstance(deco, ast.Call) and any(
+                    (k.arg == "maxsize" and isinstance(k.value, ast.Constant) and k.value.value is None) for k in deco.keywords)) or (
+                    isinstance(deco, ast.Call) and deco.args and isinstance(deco.args[0], ast.Constant) and deco.args[0].value is None)
+                wrappers[n.targets[0].id] = (n.value.args[0].id, "unbounded" if unb else "bounded")
+
+    def visit_names(f):
+        return {f.name} | {w for w, (inner, _m) in wrappers.items() if inner == f.name}
+
+    visit = next((f for f in tw.nested.values() if any(isinstance(c.func, ast.Name) and c.func.id in visit_names(f) for c in _calls(f.node))), None) \
+        or next(iter(tw.nested.values()), None)
+    vnames = visit_names(visit) if visit is not None else set()
     if visit is not None:
         visit = inlined(ctx, visit)
     tcon = f"{tw.module.relpath}::{tw.qual}"
@@ -55,7 +73,7 @@ def run(ctx):
 
     dep_loops = [n for n in walk_no_nested(visit.node) if isinstance(n, ast.For) and ast.unparse(n.iter) in (
         f"{graph_p}.dependencies[{sem.target}]", f"sorted({graph_p}.dependencies[{sem.target}])") and any(
-        isinstance(c.func, ast.Name) and c.func.id == visit.name and dotted(c.args[0]) == dotted(n.target) for c in _calls(n))]
+        isinstance(c.func, ast.Name) and c.func.id in vnames and dotted(c.args[0]) == dotted(n.target) for c in _calls(n))]
 
     class Ex(Explorer):
         def s_For(self, st, state):
@@ -88,6 +106,10 @@ def run(ctx):
                 memo = "bounded"  # bare @lru_cache has maxsize=128
         elif canon in ("functools.cache",):
             memo = "unbounded"
+    if memo is None and any(m == "unbounded" for w, (inner, m) in wrappers.items() if inner == visit.name):
+        memo = "unbounded"
+    elif memo is None and any(inner == visit.name for w, (inner, m) in wrappers.items()):
+        memo = "bounded"
     if memo is None:
         # visited-set guard idiom
         guard = any(isinstance(n, ast.If) and isinstance(n.test, ast.Compare) and isinstance(n.test.ops[0], ast.In) and dotted(n.test.left) == sem.target
@@ -106,7 +128,10 @@ def run(ctx):
                 if e.kind in ("FS_DELETE",) or (e.kind == "FS_WRITE" and e.detail not in (".touch()", ".mkdir()", "os.makedirs")):
                     r2.violation(f"{f.module.relpath}::{f.qual}::{e.detail}", f"touch performs `{e.detail}`: it must never alter the content of an existing file or remove one", e.where)
     for c, st in sem.touches:
+        from ..astutil import single_assignments
         recv = c.func.value
+        if isinstance(recv, ast.Name):
+            recv = single_assignments(visit.node).get(recv.id, recv)  # output = Path(path)
         arg = recv.args[0] if isinstance(recv, ast.Call) and recv.args else recv
         var = dotted(arg)
         loops = {n.target.id: ast.unparse(n.iter) for n in walk_no_nested(visit.node) if isinstance(n, ast.For) and isinstance(n.target, ast.Name)}
@@ -126,13 +151,18 @@ def run(ctx):
              "a visited target can leave the visitor without its spec hash recorded: with hashing on it is still stale after `gwf touch`", visit.where,
              fmt_trace(nohash[0].state, visit.module) if nohash else None)
     roots_ok = any(isinstance(n, ast.For) and dotted(n.iter) == tw.positional_params()[0] and any(
-        isinstance(c.func, ast.Name) and c.func.id == visit.name and dotted(c.args[0]) == dotted(n.target) for c in _calls(n)) for n in tw.node.body)
+        isinstance(c.func, ast.Name) and c.func.id in vnames and dotted(c.args[0]) == dotted(n.target) for c in _calls(n)) for n in tw.node.body)
+    if wrappers and any(inner == visit.name for inner, _m in wrappers.values()):
+        # every call must go through the memoised wrapper, never to the raw function
+        raw = [c for f in [tw] + list(tw.nested.values()) for c in _calls(f.node) if isinstance(c.func, ast.Name) and c.func.id == visit.name]
+        roots_ok = roots_ok and not raw
     r3.check(roots_ok, tcon + "::roots", "every requested endpoint is visited", "touch_workflow does not visit every requested endpoint", tw.where)
     rule_cone_selection(ctx, r3)
     rule_exit_persists(ctx, r3, ("spec hashes",))
     rule_close_writes(ctx, r3, ("spec hashes",))
     tc = idx.func("gwf.plugins.touch:touch")
-    w_ok = any(isinstance(n, ast.With) and any("get_spec_hashes(" in ast.unparse(i.context_expr) for i in n.items) and any(
+    from ..astutil import expand as _exp2
+    w_ok = any(isinstance(n, ast.With) and any("get_spec_hashes(" in _exp2(tc.node, i.context_expr) for i in n.items) and any(
         isinstance(c.func, (ast.Name, ast.Attribute)) and idx.canon(c.func, tc.module) == "gwf.plugins.touch.touch_workflow" for c in _calls(n)) for n in walk_no_nested(tc.node))
     r3.check(w_ok, f"{tc.module.relpath}::{tc.qual}::with", "touching happens inside the with-block of the hash store", "touch_workflow is not enclosed by the spec-hash store's with-block", tc.where)
 
